@@ -55,29 +55,36 @@ theorem normalize_types_ok :
 
 /-! ## `sameValue`: the comparable-test as the code has it -/
 
-/-- the model's interface comparison IS raw `==` before 0a3fd2c and `sameValue` since -/
-theorem ifaceEq_eq_sameValue (d : Dev) (l r : Val) :
-    ifaceEq d l r = if d.uncmp then goEq l r else sameValue l r := by
-  cases hu : d.uncmp <;> cases l <;> cases r <;> simp [ifaceEq, goEq, sameValue, comparable, hu]
-  all_goals (rename_i a b; by_cases h1 : a.ty = b.ty <;> cases h2 : a.cmp <;> simp [h1])
+/-- a typed value is well formed when "`==` is safe on it" implies "its type is comparable" (true of every Go
+value) -/
+def wfExt : Val → Bool
+  | .ext e => !e.cmp || e.tcmp
+  | _ => true
+
+/-- the model's interface comparison IS raw `==` before 0a3fd2c, `sameValue` (reflect guard on the TYPE of the
+left operand, then raw `==`) in the current code, and `sameValueFix` with the proposed repair of
+C12-iface-field-panic -/
+theorem ifaceEq_eq_sameValue (d : Dev) (l r : Val) (hl : wfExt l = true) :
+    ifaceEq d l r = if d.uncmp then goEq l r else if d.ifaceTrap then sameValue l r else sameValueFix l r := by
+  cases hu : d.uncmp <;> cases ht : d.ifaceTrap <;> cases l <;> cases r <;>
+    simp [ifaceEq, goEq, sameValue, sameValueFix, comparable, eqSafe, hu, ht]
+  all_goals (rename_i a b; simp only [wfExt] at hl; by_cases h1 : a.ty = b.ty <;> cases h2 : a.cmp <;> cases h3 : a.tcmp <;> simp_all)
 
 /-- raw Go `==` faults exactly on two operands of the same uncomparable dynamic type — two `[]any`, two
-`map[string]any`, two typed values of one uncomparable type -/
+`map[string]any`, two typed values of one kind on which `==` is unsafe -/
 theorem goEq_fault_iff (l r : Val) : (∃ f, goEq l r = .error f) ↔ sameContainer l r = true := by
   cases l <;> cases r <;> simp [goEq, sameContainer, isArr, isObj, sameUExt]
   case ext.ext a b => by_cases h1 : a.ty = b.ty <;> cases h2 : a.cmp <;> simp [h1]
-
-/-- `comparable` is false exactly on the container kinds (`[]any`, `map[string]any`, uncomparable typed) -/
-theorem comparable_eq (v : Val) : comparable v = !isContainer v := by
-  cases v <;> simp [comparable, isContainer, isArr, isObj, isUExt]
 
 /-- a guarded comparison with an arbitrary guard -/
 def sameValueBy (guard : Val → Bool) (l r : Val) : Except Fault Bool :=
   if guard l then .ok false else goEq l r
 
 theorem sameValue_eq_by : sameValue = sameValueBy (fun v => !comparable v) := rfl
+theorem sameValueFix_eq_by : sameValueFix = sameValueBy (fun v => !comparable v || !eqSafe v) := rfl
 
-/-- A guard makes the comparison total EXACTLY when it catches every uncomparable kind of left operand. -/
+/-- A guard makes the comparison total EXACTLY when it catches every kind of left operand on which `==` is
+unsafe. -/
 theorem guard_total_iff (guard : Val → Bool) :
     (∀ l r, ∃ b, sameValueBy guard l r = .ok b) ↔ ∀ l, isContainer l = true → guard l = true := by
   constructor
@@ -104,17 +111,63 @@ theorem guard_total_iff (guard : Val → Bool) :
         cases this
     · exact ⟨false, by simp [sameValueBy, hg]⟩
 
-/-- the fault of the raw `==` is unreachable behind the reflect guard: `sameValue` never faults, on any two
-operands of any kind -/
-theorem sameValue_total (l r : Val) : ∃ b, sameValue l r = .ok b := by
-  rw [sameValue_eq_by]
-  exact (guard_total_iff _).2 (fun l hl => by simp [comparable_eq, hl]) l r
+theorem eqSafe_eq (v : Val) : eqSafe v = !isContainer v := by
+  cases v <;> simp [eqSafe, isContainer, isArr, isObj, isUExt]
+
+def sameValue_total_full : Prop := ∀ l r, ∃ b, sameValue l r = .ok b
+
+/-- finding C12-iface-field-panic: the reflect guard looks at the TYPE; a value whose type is comparable
+although `==` on it is unsafe (`struct{X any}{[]int{1}}`) reaches the raw `==` -/
+theorem sameValue_total_full_false : ¬ sameValue_total_full := by
+  intro h
+  rw [sameValue_total_full, sameValue_eq_by, guard_total_iff] at h
+  have := h trapVal rfl
+  simp [comparable, trapVal] at this
+
+/-- behind the reflect guard the fault of the raw `==` is unreachable for every left operand whose type
+comparability tells the truth about `==` (everything but the values of that finding): JSON-like values, typed
+containers, typed scalars, pointers, arrays and structs without interface-typed fields -/
+theorem sameValue_total_partial (l r : Val) (hl : isContainer l = true → comparable l = false) :
+    ∃ b, sameValue l r = .ok b := by
+  cases hq : goEq l r with
+  | ok b =>
+    unfold sameValue
+    split
+    · exact ⟨false, rfl⟩
+    · exact ⟨b, hq⟩
+  | error f =>
+    have hs := (goEq_fault_iff l r).1 ⟨f, hq⟩
+    have hc : isContainer l = true := by
+      cases hc : isContainer l
+      · rw [sameContainer_noncontainer l r hc] at hs; cases hs
+      · rfl
+    exact ⟨false, by simp [sameValue, hl hc]⟩
+
+example : isContainer (.ext ⟨40, false, 0, .none, false⟩) = true → comparable (.ext ⟨40, false, 0, .none, false⟩) = false := fun _ => rfl
+
+/-- with the proposed fix the comparison is total for ALL operands -/
+theorem sameValueFix_total (l r : Val) : ∃ b, sameValueFix l r = .ok b := by
+  rw [sameValueFix_eq_by]
+  exact (guard_total_iff _).2 (fun l hl => by simp [eqSafe_eq, hl]) l r
 
 /-- and it computes the specified same-kind equality -/
-theorem sameValue_spec (l r : Val) : sameValue l r = .ok (Spec.same l r) := by
-  have := ifaceEq_eq_sameValue Dev.fixed l r
+theorem sameValueFix_spec (l r : Val) (hl : wfExt l = true) : sameValueFix l r = .ok (Spec.same l r) := by
+  have := ifaceEq_eq_sameValue Dev.fixed l r hl
   rw [ifaceEq_fixed] at this
   simpa [Dev.fixed] using this.symm
+
+/-- so does the current `sameValue` outside the finding's class -/
+theorem sameValue_spec (l r : Val) (hl : wfExt l = true) (ht : isContainer l = true → comparable l = false) :
+    sameValue l r = .ok (Spec.same l r) := by
+  rw [← sameValueFix_spec l r hl]
+  unfold sameValue sameValueFix
+  cases hc : comparable l
+  · rfl
+  · have : isContainer l = false := by
+      cases hi : isContainer l
+      · rfl
+      · rw [ht hi] at hc; cases hc
+    simp [eqSafe_eq, this]
 
 /-- the guard of the seeded change C12-m7: a fixed list of container types (`[]any`, `map[string]any`; the
 `gen` containers are typed values here) -/
@@ -125,30 +178,38 @@ theorem type_list_guard_faults :
     ¬ ∀ l r, ∃ b, sameValueBy typeListGuard l r = .ok b := by
   rw [guard_total_iff]
   intro h
-  have := h (.ext ⟨40, false, 0, .none⟩) rfl
+  have := h (.ext ⟨40, false, 0, .none, false⟩) rfl
   simp [typeListGuard, isArr, isObj] at this
 
 /-! ## operators on typed operands -/
 
 /-- `==` on a container of any kind — in particular a typed container against itself — is `false`, `!=` is
-`true`, for the current code; never a fault -/
-theorem eq_neq_container (rx : RxEngine) (l r : Val) (hl : isContainer l = true) :
+`true`, for the current code; never a fault (the left operand is not of the finding's class) -/
+theorem eq_neq_container (rx : RxEngine) (l r : Val) (hl : isContainer l = true) (ht : passesGuard l = false) :
     evalOp Dev.current rx .eq l r = .ok (.bool false) ∧ evalOp Dev.current rx .neq l r = .ok (.bool true) := by
-  rw [current_eq_fixed, evalOp_fixed_eq_spec, evalOp_fixed_eq_spec]
+  rw [evalOp_current_partial rx .eq l r (by simp [ht]), evalOp_current_partial rx .neq l r (by simp [ht])]
   cases l <;> simp_all [isContainer, isArr, isObj, isUExt, Spec.evalOp, Spec.eqv, Spec.num?]
   case ext a => cases r <;> simp_all [Spec.sameExt]
 
-example : isContainer (.ext ⟨40, false, 0, .none⟩) = true := rfl
+example : isContainer (.ext ⟨40, false, 0, .none, false⟩) = true ∧ passesGuard (.ext ⟨40, false, 0, .none, false⟩) = false := ⟨rfl, rfl⟩
 
-/-- two typed values that are not containers are equal exactly when they are the same value of the same type;
-a typed scalar never equals a JSON-like value (`myInt(1) == 1` is false) -/
-theorem eq_typed (rx : RxEngine) (a b : Ext) :
+/-- two typed values are equal exactly when they are the same value of the same comparable type; outside the
+finding's class -/
+theorem eq_typed (rx : RxEngine) (a b : Ext) (h : (a.tcmp && (a.ty == b.ty && !a.cmp)) = false) :
     evalOp Dev.current rx .eq (.ext a) (.ext b) = .ok (.bool (a.ty == b.ty && a.cmp && a.id == b.id)) := by
-  rw [current_eq_fixed, evalOp_fixed_eq_spec]; rfl
+  rw [evalOp_current_partial rx .eq (.ext a) (.ext b) (by simpa [passesGuard, uncomparablePair, sameContainer, isArr, isObj, sameUExt] using h)]
+  rfl
 
+example : ((⟨20, true, 1, .none, true⟩ : Ext).tcmp && ((20 : Nat) == 20 && !(⟨20, true, 1, .none, true⟩ : Ext).cmp)) = false := rfl
+
+/-- a typed value never equals a JSON-like value (`myInt(1) == 1` is false), in either order -/
 theorem eq_typed_plain (rx : RxEngine) (a : Ext) (r : Val) (hr : ∀ b, r ≠ .ext b) :
     evalOp Dev.current rx .eq (.ext a) r = .ok (.bool false) ∧ evalOp Dev.current rx .eq r (.ext a) = .ok (.bool false) := by
-  rw [current_eq_fixed, evalOp_fixed_eq_spec, evalOp_fixed_eq_spec]
+  have h1 : (passesGuard (.ext a) && uncomparablePair .eq (.ext a) r) = false := by
+    cases r <;> simp_all [uncomparablePair, sameContainer, isArr, isObj, sameUExt]
+  have h2 : (passesGuard r && uncomparablePair .eq r (.ext a)) = false := by
+    cases r <;> simp_all [passesGuard]
+  rw [evalOp_current_partial rx .eq _ _ h1, evalOp_current_partial rx .eq _ _ h2]
   cases r <;> simp_all [Spec.evalOp, Spec.eqv, Spec.num?]
 
 example : ∀ b, Val.int 1 ≠ .ext b := by intro b h; cases h
@@ -166,12 +227,12 @@ theorem typed_other_kind (rx : RxEngine) (a : Ext) (r : Val) :
 
 /-- normalisation: what a path operand of a sized number type or a gen scalar is compared as -/
 theorem norm_cases (ty id : Nat) (c : Bool) :
-    (Val.ext ⟨ty, c, id, .sint 5⟩).norm = .int 5 ∧
-    (Val.ext ⟨ty, c, id, .uint 9223372036854775808⟩).norm = .int (-9223372036854775808) ∧
-    (Val.ext ⟨ty, c, id, .f32 (.fin 3 (-1))⟩).norm = .flt (.fin 3 (-1)) ∧
-    (Val.ext ⟨ty, c, id, .gbool true⟩).norm = .bool true ∧
-    (Val.ext ⟨ty, c, id, .gstr [97]⟩).norm = .str [97] ∧
-    (Val.ext ⟨ty, c, id, .none⟩).norm = .ext ⟨ty, c, id, .none⟩ := by
+    (Val.ext ⟨ty, c, id, .sint 5, c⟩).norm = .int 5 ∧
+    (Val.ext ⟨ty, c, id, .uint 9223372036854775808, c⟩).norm = .int (-9223372036854775808) ∧
+    (Val.ext ⟨ty, c, id, .f32 (.fin 3 (-1)), c⟩).norm = .flt (.fin 3 (-1)) ∧
+    (Val.ext ⟨ty, c, id, .gbool true, c⟩).norm = .bool true ∧
+    (Val.ext ⟨ty, c, id, .gstr [97], c⟩).norm = .str [97] ∧
+    (Val.ext ⟨ty, c, id, .none, c⟩).norm = .ext ⟨ty, c, id, .none, c⟩ := by
   refine ⟨rfl, ?_, rfl, rfl, rfl, rfl⟩
   simp [Val.norm, wrap64]
 
@@ -180,7 +241,7 @@ theorem norm_idem (v : Val) : v.norm.norm = v.norm := by
   cases v <;> try rfl
   case ext e =>
     simp only [Val.norm]
-    cases h : e.core <;> simp [Val.norm, h]
+    cases h : e.core <;> simp [h]
 
 /-! ## the bare → multi → normal decision -/
 
@@ -199,7 +260,7 @@ theorem bare_verdict (d : Dev) (rx : RxEngine) (p : Path) (elem root : Val) (h :
       have hv' := (norm_present v).trans (h v (by simp))
       cases r with
       | nil =>
-        simp only [↓reduceIte, List.isEmpty_cons, Bool.not_false]
+        simp only [List.isEmpty_cons, Bool.not_false]
         generalize v.norm = x at hv'
         cases x <;> simp_all
       | cons w r' => simp
